@@ -424,7 +424,53 @@ def ref_layer_self_lookup(r):
 
 
 
-FAMILIES = {"ref_layer_self_lookup": ref_layer_self_lookup, "colon_selectors": colon_selectors, "same_value_layers": same_value_layers, "sibling_fullpath_refs": sibling_fullpath_refs,
+def padded_refs(r):
+    """A string that is ONE reference surrounded only by whitespace (leading/trailing blanks, tabs, the newline a YAML block
+    scalar ends with): still a mixed string, so the result is text -- padding kept, scalars in their text form, containers
+    as JSON -- also when such a value is embedded further or used as a path segment."""
+    pads = [" ", "  ", "\t", "\n", " \n", "\u00a0"]
+    tgt = r.choice(["n", "f", "t", "z", "s", "m", "l", "e"])
+    lead = r.choice(pads + ["", ""])
+    trail = r.choice(pads + [""]) if lead else r.choice(pads)
+    base = {"n": 5, "f": 1.5, "t": True, "z": None, "s": "abc", "e": "", "m": {"a": "v", "b": [1, 2]}, "l": [1, "x"], "key": "a"}
+    layer = dict(base)
+    layer["pad"] = lead + "${" + tgt + "}" + trail
+    if r.chance(1, 2):
+        layer["outer"] = "[${pad}]"
+    if r.chance(1, 3):
+        layer["padkey"] = r.choice([" ${key}", "${key} ", "${key}\n"])
+        layer["sel"] = "${m:${padkey}}"
+    if r.chance(1, 3):
+        layer["inlist"] = [lead + "${" + tgt + "}" + trail, "${" + tgt + "}"]
+    layers = [layer]
+    if r.chance(1, 3):
+        layers.append({"pad": r.choice([lead + "${s}", "${n}" + (trail or " ")])})
+    return G.P(*layers)["layers"]
+
+
+def escaped_through_lookup(r):
+    """Text written with escaped markers (\\${X}, \\$[X], \\\\${name}) reached by a multi-segment lookup THROUGH another
+    reference, by a reference to a reference, and as a layer: unescaped exactly once, never looked up."""
+    esc = r.choice(["\\${X}", "\\${HOME}/bin", "pre \\${X} post", "\\$[X]", "\\\\${name}", "a\\${X}b\\${Y}", "\\${X:y}"])
+    defaults = {"label": esc, "plain": "p", "n": {"deep": esc}}
+    layer = {"defaults": defaults, "app": "${defaults}", "name": r.choice(["N", "\\${x}"]), "out": r.choice(["${app:label}", "${app:n:deep}", "x${app:label}y", "${app:n}"])}
+    if r.chance(1, 2):
+        layer["X"] = "should-not-appear"
+    if r.chance(1, 2):
+        layer["via"] = "${out}"
+        layer["via2"] = "${via}"
+    if r.chance(1, 3):
+        layer["lst"] = ["${app:label}", esc]
+    layers = [layer]
+    if r.chance(1, 3):
+        layers.append({"app": {"extra": 1}})
+    if r.chance(1, 3):
+        layers.append({"defaults": {"label": esc}})
+    return G.P(*layers)["layers"]
+
+
+
+FAMILIES = {"padded_refs": padded_refs, "escaped_through_lookup": escaped_through_lookup, "ref_layer_self_lookup": ref_layer_self_lookup, "colon_selectors": colon_selectors, "same_value_layers": same_value_layers, "sibling_fullpath_refs": sibling_fullpath_refs,
             "dup_in_one_mapping": dup_in_one_mapping, "odd_keys": odd_keys, "null_const": lambda r: null_const(r), "empty_segments": empty_segments, "override_through_path": override_through_path, "empty_const": empty_const,
             "deep_ref_layers": deep_ref_layers, "repeated_layers": repeated_layers, "escapes_in_containers": escapes_in_containers,
             "both_flags": both_flags}
